@@ -783,21 +783,25 @@ def run(ctx):
                 if p[j] and len(p[j]) == 1 and not (fam == "laplace" and j == 1) and not (fam == "smoothedlaplace" and j == 2):
                     p[j] = [p[j][0]] * n
             av, bv, cv = rng.choice([0.5, 1.0, 2.0]), rng.choice([1.0, 2.0, 4.0]), rng.choice([0.5, 2.0])
+            while av == bv:
+                bv = rng.choice([1.0, 2.0, 4.0])
             loc0 = 0 in LOCLIKE[fam]
-            # parameter 0 and 1 as functions of (a, b) / (c); values stay valid: positive parameters are multiplied by
-            # positive factors, location-like ones shifted
+            # parameter 0 and 1 as functions of (a, b) / (c) that are NOT symmetric in their arguments (a value handed to the
+            # wrong argument shows); values stay valid: positive parameters are multiplied by positive factors, location-like
+            # ones shifted
+            gab = lambda a, b: a * a * b
             if fam == "uniform":
-                f0 = (lambda base: (lambda a, b: base - a * b))(np.array(p[0]))
-                f1 = (lambda base: (lambda a, b: base + a * b))(np.array(p[1]))
+                f0 = (lambda base: (lambda a, b: base - gab(a, b)))(np.array(p[0]))
+                f1 = (lambda base: (lambda a, b: base + gab(a, b)))(np.array(p[1]))
                 f1c = (lambda base: (lambda c: base + c))(np.array(p[1]))
-                v0 = (np.array(p[0]) - av * bv).tolist(); v1ab = (np.array(p[1]) + av * bv).tolist(); v1c = (np.array(p[1]) + cv).tolist()
+                v0 = (np.array(p[0]) - gab(av, bv)).tolist(); v1ab = (np.array(p[1]) + gab(av, bv)).tolist(); v1c = (np.array(p[1]) + cv).tolist()
             else:
-                f0 = (lambda base: (lambda a, b: base + a - b))(np.array(p[0])) if loc0 else (lambda base: (lambda a, b: base * a * b))(np.array(p[0]))
-                v0 = (np.array(p[0]) + av - bv).tolist() if loc0 else (np.array(p[0]) * av * bv).tolist()
+                f0 = (lambda base: (lambda a, b: base + a - b))(np.array(p[0])) if loc0 else (lambda base: (lambda a, b: base * gab(a, b)))(np.array(p[0]))
+                v0 = (np.array(p[0]) + av - bv).tolist() if loc0 else (np.array(p[0]) * gab(av, bv)).tolist()
                 base1 = np.array(p[1]) if len(p[1]) > 1 else float(p[1][0])
-                f1 = (lambda base: (lambda a, b: base * a * b))(base1)
+                f1 = (lambda base: (lambda a, b: base * gab(a, b)))(base1)
                 f1c = (lambda base: (lambda c: base * c))(base1)
-                v1ab = (np.array(p[1]) * av * bv).tolist(); v1c = (np.array(p[1]) * cv).tolist()
+                v1ab = (np.array(p[1]) * gab(av, bv)).tolist(); v1c = (np.array(p[1]) * cv).tolist()
             if variant == "both-callable-same-args":
                 kwf = {0: f0, 1: f1}; cur = [v0, v1ab] + p[2:]; cvals = {"a": av, "b": bv}
             elif variant == "first-callable-second-constant":
@@ -825,17 +829,26 @@ def run(ctx):
         ref = reference(fam, x, cur, n)
         ref = ref[0] if isinstance(ref, list) else ref
         orders = list(itertools.permutations(cvals.keys()))[:4]
-        routes = [("one-step", None)] + [("steps:" + ">".join(o), o) for o in orders] + [("logd-kwargs", "logd")]
+        perms = [o for o in itertools.permutations(cvals.keys()) if list(o) != list(cvals.keys())][:3]
+        routes = [("one-step", None)] + [("steps:" + ">".join(o), o) for o in orders] + [("logd-kwargs", "logd")] \
+            + [("one-step-permuted-keywords:" + ",".join(o), ("perm", o)) for o in perms] \
+            + [("logd-permuted-keywords:" + ",".join(o), ("logdperm", o)) for o in perms[:2]] + [("logd-positional", "logdpos")]
         for label, route in routes:
             desc = {"family": fam, "dim": n, "variant": variant, "route": label, "cond_values": cvals, "parameters_demanded": cur, "x": x}
             ctx.case("multi-step-conditioning", desc)
-            key = f"{CLS[fam].__name__}:conditioning:{variant}:" + ("multi-step" if route not in (None, "logd") else label)
+            key = f"{CLS[fam].__name__}:conditioning:{variant}:" + (label.split(":")[0] if (route in (None, "logd", "logdpos") or route[0] in ("perm", "logdperm")) else "multi-step")
             def run_route(route=route):
                 d = CLS[fam](**kw, geometry=n, name="x")
                 if route is None:
                     return d(**cvals).logpdf(xa)
                 if route == "logd":
                     return d.logd(**cvals, x=xa)
+                if route == "logdpos":         # positional arguments follow the distribution's own order of conditioning variables
+                    return d.logd(*[cvals[nm] for nm in d.get_conditioning_variables()], xa)
+                if route[0] == "perm":         # all conditioning values in ONE call, keywords in another order than the signatures
+                    return d(**{nm: cvals[nm] for nm in route[1]}).logpdf(xa)
+                if route[0] == "logdperm":
+                    return d.logd(**{nm: cvals[nm] for nm in route[1]}, x=xa)
                 for nm in route:
                     d = d(**{nm: cvals[nm]})
                 return d.logpdf(xa)
@@ -862,8 +875,14 @@ def run(ctx):
     lognormal_history_section(ctx, D, rng, S)
     mrf_history_section(ctx, D, G, rng, S)
     gauss_scale_section(ctx, D, rng, S)
+    gauss_scale_bigdim_section(ctx, D, rng, S)
     dtype_section(ctx, D, G, rng, S)
     gauss_structured_bigdim_section(ctx, D, rng, S, thorough)
+
+    # =================================================================== 5c. session 3: the Gaussian object (storage formats,
+    # constructor / setter validation, covariance cache, compute_cov) — Model/C04_gaussobj.lean
+    from harness.props.c04_gaussobj import gaussobj_section
+    gaussobj_section(ctx, D, rng, S)
 
     # =================================================================== 6. normalisation by quadrature
     quadrature_section(ctx, D, G, rng, S)
@@ -1800,6 +1819,68 @@ def gauss_scale_section(ctx, D, rng, S):
         else:
             mism.append(f"model answer {out[:40]} for a valid specification")
         verdict(ctx, key, desc, not mism, out[:120], mism, fail, "Gaussian at extreme scale: model and implementation differ: " + "; ".join(mism))
+
+
+def gauss_scale_bigdim_section(ctx, D, rng, S):
+    """dim > MIN_DIM_SPARSE, dense FULL (tridiagonal, well conditioned) matrices scaled by powers of two from 2^-40 (1e-12) to
+    2^33 (1e10): the eigen-decomposition branches decide which eigenvalues are 'zero' RELATIVE to the largest one, so rank,
+    log-determinant and precision must not depend on the overall scale.  The model is exact at any scale (the scaling by a
+    power of two is exact in floating point); float64 reference: scipy mvn with the documented covariance."""
+    cases = []
+    for i, form in enumerate(("cov", "prec", "sqrtcov", "sqrtprec")):
+        exps = (-40, -33, 20, 33) if form in ("cov", "prec") else (-20, -17, 10, 16)      # square roots: the product is scaled by the square
+        if ctx.tier != "thorough":       # quick: one small and one large scale per form (alternating with the seed); thorough: all four
+            exps = (exps[(i + ctx.seed) % 2], exps[2 + (i + ctx.seed) % 2])
+        for j, e in enumerate(exps):
+            n = (76, 80, 77, 84)[(i + j + ctx.seed) % 4]
+            A = band(n, rng.choice([2.0, 3.0]), rng.choice([1.0, -1.0, 0.5])) * (2.0 ** e)
+            cases.append((form, n, e, A))
+    lines, meta = [], []
+    for (form, n, e, A) in cases:
+        C = doc_cov(form, A)
+        sd = np.sqrt(np.diag(C))
+        mu = np.array([dy(rng, -2, 2) for _ in range(n)])
+        x = mu + sd * np.array([dy(rng, -2, 2) for _ in range(n)])
+        lines.append(f"gauss {form} dense {n} {qv(x)} {qv(mu)} {qm(A.tolist())}")
+        meta.append((form, n, e, A, C, mu, x))
+    outs = ctx.lean.drive(lines)
+    for (form, n, e, A, C, mu, x), out in zip(meta, outs):
+        desc = {"form": form, "dim": n, "class": f"tridiagonal scaled by 2^{e}", "diag": float(A[0, 0]), "offdiag": float(A[0, 1]),
+                "mean": "(dyadic, length dim)", "x": "mean + sd * dyadic"}
+        ctx.case("gauss-scale-dim>75", desc)
+        key = f"Gaussian:{form}:dense:dim>75:scaled"
+        t = out.split()
+        try:
+            with quiet():
+                g = D.Gaussian(mu.copy(), **{form: A.copy()})
+        except Exception as ex:  # noqa
+            g = None; cerr = type(ex).__name__
+        istat, ival = call(lambda: g.logpdf(x)) if g is not None else ("raise", cerr)
+        mism, fail = [], None
+        if t[0] != "ok":
+            mism.append(f"model answer {out[:40]} for an SPD specification")
+        else:
+            # the model's determinant of the covariance is an exact rational far outside the double range (2^(-40*76)): the
+            # log-density is assembled here from the model's exact rank / determinant / quadratic form
+            dc = Fraction(t[2][2:])
+            mlp = -0.5 * (int(t[1]) * math.log(2 * math.pi) + math.log(dc.numerator) - math.log(dc.denominator)) - 0.5 * dec(t[3])
+            if istat != "value" or not relclose(mlp, ival, 1e-8):
+                mism.append(f"logpdf {[istat, ival]} vs model {mlp}")
+            if g is not None:
+                if int(g.rank) != int(t[1]):
+                    mism.append(f"rank {int(g.rank)} vs model {t[1]}")
+                if not relclose(math.log(dc.numerator) - math.log(dc.denominator), fnum(g.logdet), 1e-8):
+                    mism.append(f"logdet {fnum(g.logdet)} vs model {math.log(dc.numerator) - math.log(dc.denominator)}")
+        if g is None:
+            fail = ("a Gaussian", f"raises {cerr}", "a well-conditioned SPD specification is refused at this scale")
+        else:
+            with quiet():
+                ref = float(sps.multivariate_normal(mu, C).logpdf(x))
+            if int(g.rank) != n:
+                fail = (n, int(g.rank), f"rank of a well-conditioned (condition number < 10) matrix scaled by 2^{e} is not the dimension: eigenvalues are cut off by an absolute tolerance")
+            elif istat != "value" or not relclose(ref, ival, 1e-8):
+                fail = (ref, [istat, ival], f"Gaussian.logpdf is not the documented density for a dense matrix scaled by 2^{e} at dim > 75")
+        verdict(ctx, key, desc, not mism, out[:100], mism, fail, "scaled dense Gaussian, dim > 75: model and implementation differ: " + "; ".join(mism))
 
 
 def gauss_structured_bigdim_section(ctx, D, rng, S, thorough):
